@@ -23,7 +23,7 @@
     - EnableMavlPrefix changes database keys only (prefix ++ hash) — reads and
       root hashes are the same; not modelled separately here (see C02/C05). *)
 From Coq Require Import List ZArith NArith Bool.
-From C33 Require Import C01.Keys C01.Model.
+From C33 Require Import C01.Keys C01.Model C01.Spec.
 Import ListNotations.
 Open Scope Z_scope.
 
@@ -204,3 +204,24 @@ Fixpoint run (d : db) (r : root) (bs : list batch) : option (db * root) :=
   end.
 
 Definition history (bs : list batch) : option (db * root) := run [] None bs.
+
+(** Histories of write batches and DelKVPair batches. *)
+Definition apply_op (d : db) (r : root) (o : op) : option (db * root) :=
+  match o with
+  | OSet kvs => set_kv_pair d r kvs
+  | ODel ks => match del_kv_pair d r ks with
+               | Some (dr, _) => Some dr
+               | None => None
+               end
+  end.
+
+Fixpoint run_ops (d : db) (r : root) (ops : list op) : option (db * root) :=
+  match ops with
+  | [] => Some (d, r)
+  | o :: tl => match apply_op d r o with
+               | None => None
+               | Some (d', r') => run_ops d' r' tl
+               end
+  end.
+
+Definition history_ops (ops : list op) : option (db * root) := run_ops [] None ops.
